@@ -68,6 +68,11 @@ struct PmModel {
   static constexpr bool pos_indexed = !is_chain ? Opt::column_indexation_type != Column_indexation_types::IDENTIFIER
                                                 : Opt::column_indexation_type == Column_indexation_types::POSITION;
   static constexpr bool id_indexed = Opt::column_indexation_type == Column_indexation_types::IDENTIFIER;
+  // Matrix.h: remove_maximal_cell needs vine updates and removable columns; chain matrices also a map container and,
+  // for the one-argument form (the only one the position overlay offers), the stored barcode
+  static constexpr bool can_remove_maximal =
+      Opt::has_vine_update && Opt::has_removable_columns &&
+      (!is_chain || (Opt::has_map_column_container && (Opt::has_column_pairings || !pos_indexed)));
   struct Cell { unsigned id; int dim; std::vector<std::pair<unsigned, int>> bd; };  // bd in ids
   std::unique_ptr<M> m;
   std::vector<Cell> cells;   // in current filtration order
@@ -91,7 +96,7 @@ struct PmModel {
   bool applicable(const bj::object& act) const {
     std::string op(act.at("op").as_string());
     if (op == "vine_swap") return Opt::has_vine_update;
-    if (op == "remove_maximal") return Opt::has_vine_update && Opt::has_removable_columns && (!is_chain || Opt::has_map_column_container);
+    if (op == "remove_maximal") return can_remove_maximal;
     if (op == "remove_last") return Opt::has_removable_columns && (!is_chain || Opt::has_map_column_container || !Opt::has_vine_update);
     return true;
   }
@@ -157,15 +162,22 @@ struct PmModel {
         std::swap(cells[i], cells[i + 1]);
       }
     } else if (op == "remove_maximal") {
-      if constexpr (Opt::has_vine_update && Opt::has_removable_columns && (!is_chain || Opt::has_map_column_container)) {
-        int i = static_cast<int>(act.at("i").to_number<std::int64_t>());
-        if constexpr (is_chain && !pos_indexed) {
+      int i = static_cast<int>(act.at("i").to_number<std::int64_t>());
+      if constexpr (can_remove_maximal) {
+        if constexpr (!is_chain) {
+          m->remove_maximal_cell(col_index(i));                      // boundary type: MatIdx
+        } else if constexpr (pos_indexed) {
+          m->remove_maximal_cell(static_cast<unsigned>(i));          // position overlay: PosIdx
+        } else {
+          // chain, container or identifier indexing: the documented argument is the IDIdx of the cell;
+          // both documented entry points are exercised
           std::vector<unsigned> after;
           for (std::size_t k = i + 1; k < cells.size(); ++k) after.push_back(cells[k].id);
-          if (i % 2 == 0) m->remove_maximal_cell(cells[i].id, after);   // both documented entry points
-          else m->remove_maximal_cell(col_index(i));
-        } else {
-          m->remove_maximal_cell(col_index(i));
+          if constexpr (Opt::has_column_pairings) {
+            if (i % 2 == 0) m->remove_maximal_cell(cells[i].id, after); else m->remove_maximal_cell(cells[i].id);
+          } else {
+            m->remove_maximal_cell(cells[i].id, after);
+          }
         }
         cells.erase(cells.begin() + i);
       }
@@ -190,7 +202,7 @@ struct PmModel {
       v[r] = val;
     }
     // ... and through iteration over the entries, which must agree except for the lazily cleaned heap columns
-    if constexpr (Opt::column_type != Column_types::HEAP) {
+    if constexpr (Opt::column_type != Column_types::HEAP && Opt::column_type != Column_types::VECTOR) {  // both clean lazily
       SparseVec w;
       for (auto& e : col) {
         int r = rows_are_ids ? pos_of_id(e.get_row_index()) : static_cast<int>(e.get_row_index());
@@ -201,7 +213,7 @@ struct PmModel {
       }
       if (w != v) failed.push_back("iteration over a column disagrees with get_content");
     }
-    if (col.is_empty() != v.empty()) failed.push_back("is_empty disagrees with the column content");
+    if (const_cast<Col&>(col).is_empty() != v.empty()) failed.push_back("is_empty disagrees with the column content");
     return v;
   }
   SparseVec boundary_of(int pos) const {
